@@ -3,6 +3,8 @@
 // Contracts (//@ comments, read by /verif/govc) for package mrt. Built only with -tags verif.
 package mrt
 
+import "net/netip"
+
 //@ props C19
 
 //@ invariant errNotAllPeerBytesAvailable != nil
@@ -49,3 +51,29 @@ package mrt
 //@   claims bounds div0 make
 //@ func parseGeoPeerTable
 //@   claims bounds div0 make
+
+// from C19: "Every message those packages can construct serialises to bytes that parse back": a PEER_INDEX_TABLE
+// entry built by NewPeer from ANY address values (also the invalid zero address the daemon uses as the source of
+// locally originated routes) serialises to exactly the octets its type bits announce, so that the decoder consumes
+// the entry completely and the following entries stay framed
+//@ props C19
+//@ func verifMRTPeerFraming
+//@   inline-calls
+//@   modifies nothing
+//@   ensures result
+func verifMRTPeerFraming(bgpid, ipaddr netip.Addr, asn uint32, isAS4 bool) bool {
+	if !isAS4 && asn > 65535 {
+		return true
+	}
+	p := NewPeer(bgpid, ipaddr, asn, isAS4)
+	buf, err := p.Serialize()
+	if err != nil {
+		return false
+	}
+	q := &Peer{}
+	rest, err := q.decodeFromBytes(buf)
+	if err != nil {
+		return false
+	}
+	return len(rest) == 0 && q.Type == p.Type
+}
